@@ -67,7 +67,10 @@ def r1_aligned_views(ctx):
     ctx.ob(af.where, "concatenate: the file buffers are concatenated in operand order and paired with the merged overlay and cache", ok, "", key="C05-R1|concatenate|result")
     # fallback to eager objects
     txt = u(af.node)
-    ok = "objects = [a.get_data_object() for a in args[0]]" in txt and "return func(*args, **kwargs)" in txt
+    enva = local_env(af.node)
+    objs = enva.get("objects")
+    ok = objs is not None and sym.canon(inline_locals(objs, {k: v_ for k, v_ in enva.items() if k != "objects"})) == sym.canon(sym.parse_expr("[a.get_data_object() for a in args[0]]")) \
+        and "return func(*args, **kwargs)" in txt
     ctx.ob(af.where, "buffers that cannot be concatenated fall back to concatenating the fully parsed tables", ok, "", key="C05-R1|concatenate|fallback")
     # __getattr__: overlay first, then cache, then parse
     ga = ix.func(LZ, f"{LAZY}.__getattr__")
@@ -75,8 +78,17 @@ def r1_aligned_views(ctx):
     rets = g.stmt_nodes(ast.Return)
     v = ga.params[1]
     order = [sym.canon(r.ast.value) for r in rets]
-    ok = order[:2] == [f"self._set_values[{v}]", f"self._computed_values[{v}]"]
-    ctx.ob(ga.where, "field access: an assigned value wins over the cached / parsed one", ok, str(order), key="C05-R1|getattr-order")
+    # "assigned wins": every return that is NOT the overlay entry is reached only when the name is not in the overlay
+    in_overlay = f"({v})in(self._set_values)"
+    ok = any(o == f"self._set_values[{v}]" for o in order)
+    for r in rets:
+        if sym.canon(r.ast.value) == f"self._set_values[{v}]":
+            continue
+        facts = set()
+        for t, lab in g.guards(r):
+            facts |= edge_facts(t, lab)
+        if (in_overlay, False) not in facts:
+            ok = False
     first = [r for r in rets if sym.canon(r.ast.value) == f"self._set_values[{v}]"]
     if first:
         facts = set()
@@ -85,7 +97,17 @@ def r1_aligned_views(ctx):
         ctx.ob(ga.where, "the overlay is consulted only for names it holds", (f"({v})in(self._set_values)", True) in facts, str(sorted(facts)), key="C05-R1|getattr-guard")
     gd = ix.func(LZ, f"{LAZY}.get_data_object")
     txt = u(gd.node)
-    ok = "fields = [getattr(self, field.name) for field in dataclasses.fields(dataclass)]" in txt and "self._data = dataclass(*fields)" in txt and "if not self._computed:" in txt
+    envd = dict(local_env(ix.func(LZ, "create_lazy_class").node))     # names of the enclosing factory (e.g. the field list looked up once per class)
+    envd.update(local_env(gd.node))
+    st = [x for x in body_walk(gd.node) if isinstance(x, ast.Assign) and u(x.targets[0]) == "self._data"]
+    ok = len(st) == 1 and sym.canon(inline_locals(st[0].value, envd)) == sym.canon(sym.parse_expr("dataclass(*[getattr(self, field.name) for field in dataclasses.fields(dataclass)])"))
+    if ok:
+        gg = CFG(gd.node)
+        node = [n for n in gg.stmt_nodes(ast.Assign) if n.ast is st[0]]
+        facts = set()
+        for t, lab in (gg.guards(node[0]) if node else []):
+            facts |= edge_facts(t, lab)
+        ok = ("self._computed", False) in facts
     ctx.ob(gd.where, "the materialised table is built from the same per-field access (overlay, cache, parse) in field order", ok, "", key="C05-R1|materialise")
 
 
